@@ -55,6 +55,7 @@ void scen_c06(mt_case * c) {
   if (big && e.W < 2 && rd_below(r, 2)) e.W = 2 + (int)rd_below(r, 3);
   mt_desc("C06 barrier N=%d rounds=%d main_participates=%d delay seed=%08x\n", B.N, B.R, B.main_participates, B.dseed);
   mt_hash(c->prog.p, c->prog.pos);
+  mt_allow_prelude = 1;
   mt_lib_start(c, &e, big ? 32768 : 0);
   MT_DIRTY(B.b); Z0(myth_barrier_init(&B.b, 0, B.N));
   myth_thread_t * th = calloc((size_t)B.N + 1, sizeof *th); int first = B.main_participates ? 1 : 0;
@@ -132,6 +133,7 @@ void scen_c07(mt_case * c) {
   mt_desc(" waiter delays:"); for (int k = 0; k < J.K; k++) mt_desc(" %d", J.w_y[k]);
   mt_desc("\n");
   mt_hash(c->prog.p, c->prog.pos);
+  mt_allow_prelude = 1;
   mt_lib_start(c, &e, 0);
   mv_set_point_observer(nosw_observer);
   MT_DIRTY(J.jc); myth_join_counter_init(&J.jc, 0, J.N);
@@ -223,6 +225,7 @@ void scen_c08(mt_case * c) {
   int nby = (int)rd_below(r, 4), byy = rd_range(r, 1, 24);   /* bystander threads that only yield: other work in the run queues */
   mt_desc("C08 uncond mailbox items=%d producer yields %d consumer yields %d consumer_first=%d main_role=%d bystanders=%d(x%d yields)\n", U.items, U.yp, U.yc, consumer_first, main_role, nby, byy);
   mt_hash(c->prog.p, c->prog.pos);
+  mt_allow_prelude = 1;
   mt_lib_start(c, &e, 0);
   MT_DIRTY(U.u); myth_uncond_init(&U.u);
   myth_thread_t tp = 0, tc = 0, tb[4];
@@ -340,6 +343,7 @@ void scen_c09(mt_case * c) {
   mt_desc(" quotas:"); for (int j = 0; j < F.C; j++) mt_desc(" %d(y%d)", F.quota[j], F.yc[j]);
   mt_desc("\n");
   mt_hash(c->prog.p, c->prog.pos);
+  mt_allow_prelude = 1;
   mt_lib_start(c, &e, 0);
   MT_DIRTY(F.fe); myth_felock_init(&F.fe, 0); F.box = -1;
   myth_thread_t th[12], rth[4]; int n = 0;
@@ -424,6 +428,7 @@ void scen_c14(mt_case * c) {
   for (int k = 0; k < O.K; k++) { O.ctl_of[k] = (int)rd_below(r, (unsigned)O.NC); O.y[k] = (int)rd_below(r, 3); O.repeats[k] = (int)rd_below(r, 3); mt_desc(" c%d(y%d,r%d)", O.ctl_of[k], O.y[k], O.repeats[k]); }
   mt_desc("\n");
   mt_hash(c->prog.p, c->prog.pos);
+  mt_allow_prelude = 1;
   mt_lib_start(c, &e, 0);
   mv_set_point_observer(nosw_observer);
   MT_DIRTY(O.m); Z0(myth_mutex_init(&O.m, 0));
